@@ -7,6 +7,8 @@ runs them: arity check, arm loop, tail-call loop) and `callRec` (plain recursion
 specification).  They hold for all arm lists, all argument values and all recursion depths.
 -/
 import MechVerif.Lemmas.Arms
+import MechVerif.Lemmas.ArmsSkeleton
+import MechVerif.Gen.ArmsSkeleton
 namespace MechVerif.Arms
 
 /-! ### match expressions: the first applicable arm, and no later one -/
@@ -496,5 +498,164 @@ theorem C16_countdown_recurrence (n acc : Nat) (h : ((acc + 2 * n : Nat) : Int) 
 example : callRec factDef 6 [u 5] = .ok (u 120) := by
   have := C16_factorial 5 (by decide)
   simpa [fact] using this
+
+/-! ### the call, the arm loop and the match expression as written
+
+`tools/extract_arms.py` regenerates `Gen.ArmsSkeleton.userFn` / `fnArms` / `matchFn` from `execute_user_function`,
+`execute_function_match_arms` (functions.rs) and `match_expression` (expressions.rs) on every run; the generated file
+proves them equal to the accepted skeletons (`decide`), Lemmas/ArmsSkeleton.lean proves what the accepted skeletons
+compute over the model's leaves. -/
+
+open MechVerif.ArmsIR in
+/-- One pass of `execute_function_match_arms` as written is `stepArms`: arms in source order, a fresh pattern
+    environment per arm, matched against the arguments handed in, the first match returns, no arm is an error.
+    (`Saturated`: a body that is literally a self call has as many arguments as the function has inputs.) -/
+theorem C16_function_arms_as_written_is_stepArms (f : FDef) (self : List S → Except Err S)
+    (left : P → List S → Env → Env) (args : List S) (hsat : Saturated f f.arms) :
+    runArms (modelFOps f self left) Gen.ArmsSkeleton.fnArms args (inputsEnv f args) = some (stepArms self f args f.arms) := by
+  rw [Gen.ArmsSkeleton.C16_function_arms_as_written]; exact runArms_expected f self left args hsat
+
+open MechVerif.ArmsIR in
+/-- `execute_user_function` as written (calling `execute_function_match_arms` as written) is `callImpl`, for all
+    definitions with arms, all arguments, all fuel: arity first, then the loop whose next turn binds and matches the
+    tail call's arguments. -/
+theorem C16_user_function_as_written_is_callImpl (f : FDef) (it d : Nat) (left : P → List S → Env → Env) (args : List S)
+    (hsat : Saturated f f.arms) (harms : f.arms ≠ []) :
+    runUser (modelFOps f (callImpl f it d) left) Gen.ArmsSkeleton.fnArms Gen.ArmsSkeleton.userFn it args
+      = some (callImpl f it (d + 1) args) := by
+  rw [Gen.ArmsSkeleton.C16_function_arms_as_written, Gen.ArmsSkeleton.C16_user_function_as_written]
+  exact runUser_expected f it d left args hsat harms
+
+open MechVerif.ArmsIR in
+/-- `match_expression` as written is `matchExpr`, for all arm lists and sources: the wildcard / exhaustiveness test
+    before the loop, arms in source order, the environment cloned per arm, the guard only after the pattern matched. -/
+theorem C16_match_expression_as_written_is_matchExpr (variants : List String) (arms : List Arm) (src : V)
+    (left : P → V → Env → Env) :
+    runMatchExpr (modelMOps variants arms src left) Gen.ArmsSkeleton.matchFn = some (matchExpr variants arms src) := by
+  rw [Gen.ArmsSkeleton.C16_match_expression_as_written]; exact runMatchExpr_expected variants arms src left
+
+open MechVerif.ArmsIR in
+/-- an existing theorem restated for the code as written: a call with the wrong number of arguments is rejected -/
+theorem C16_arity_rejected_as_written (f : FDef) (it d : Nat) (left : P → List S → Env → Env) (args : List S)
+    (hsat : Saturated f f.arms) (harms : f.arms ≠ []) (h : args.length ≠ f.arity) :
+    runUser (modelFOps f (callImpl f it d) left) Gen.ArmsSkeleton.fnArms Gen.ArmsSkeleton.userFn it args
+      = some (.error .arity) := by
+  rw [C16_user_function_as_written_is_callImpl f it d left args hsat harms]
+  simp [callImpl, h]
+
+open MechVerif.ArmsIR in
+/-- an existing theorem restated for the code as written: without a wildcard arm a source that is not an enum value is rejected
+    before any arm is looked at -/
+theorem C16_nonexhaustive_rejected_as_written (variants : List String) (arms : List Arm) (s : S) (left : P → V → Env → Env)
+    (h : hasWildcard arms = false) :
+    runMatchExpr (modelMOps variants arms (.sc s) left) Gen.ArmsSkeleton.matchFn = some (.error .nonExhaustive) := by
+  rw [C16_match_expression_as_written_is_matchExpr]
+  simp [matchExpr, h]
+
+/-! ### the seeded changes have another meaning -/
+
+section mutants
+open MechVerif.ArmsIR
+
+/-- a matcher that leaves the binding it made before it failed (as `pattern_matches_arguments` does with a tuple
+    pattern whose second position fails) -/
+def leftBinding : P → List S → Env → Env := fun _ args env =>
+  match args with
+  | a :: _ => (0, .sc a) :: env
+  | [] => env
+
+/-- the arm loop with the pattern environment created once, before the loop -/
+def mutantEnvOnce : FStmt :=
+  .seq .enumCheck
+  (.seq .newEnv
+  (.seq (.forArms .forward
+    (.seq (.matchArgs .orig)
+    (.ite (.var .matched)
+      (.seq (.ifSelfCall (.seq .evalTailArgs (.ifTailArity .returnTail)))
+      (.seq .evalBody (.seq .coerce .returnValue)))
+      .skip)))
+  .failNoArm))
+
+def twoArms : FDef := { arity := 2, arms := [(.tup [.bind 0, .lit (.num .u64 0)], .lit (.num .u64 1)), (.tup [.bind 1, .bind 0], .var 0)] }
+
+/-- with one environment for all arms, what the first arm bound before it failed decides the second arm -/
+theorem C16_mutant_env_once :
+    runArms (modelFOps twoArms noSelf leftBinding) mutantEnvOnce [.num .u64 5, .num .u64 7] [] = some (.error .noArm) ∧
+    runArms (modelFOps twoArms noSelf leftBinding) expectedArms [.num .u64 5, .num .u64 7] [] = some (.ok (.ret (.num .u64 7))) :=
+  ⟨rfl, rfl⟩
+
+/-- the tail-call loop binding the inputs to the arguments of the original call -/
+def mutantBindOriginal : FStmt :=
+  .seq .arityCheck (.seq (.tryBroadcast .orig) (.seq (.ifArms
+    (.seq (.setCur .orig) (.loop (.seq .enterScope (.seq (.bindInputs .orig) (.seq (.callArms .cur) (.seq .dropScope
+      (.matchStep .breakValue (.setCur .next))))))))
+    .plainBody) .returnOutput))
+
+/-- `f(n) := | 0 => n  | m => f(0)` with the input named `n` (variable 7): after the tail call `n` must be 0 -/
+def tailDef : FDef := { arity := 1, arms := [(.sp (.lit (.num .u64 0)), .var 7), (.sp (.bind 1), .call1 (.lit (.num .u64 0)))], inputs := [7] }
+
+theorem C16_mutant_inputs_of_original_call :
+    runUser (modelFOps tailDef noSelf leftBinding) expectedArms mutantBindOriginal 3 [.num .u64 5] = some (.ok (.num .u64 5)) ∧
+    runUser (modelFOps tailDef noSelf leftBinding) expectedArms expectedUser 3 [.num .u64 5] = some (.ok (.num .u64 0)) :=
+  ⟨rfl, rfl⟩
+
+/-- the arm loop reversed -/
+def mutantReversed : FStmt :=
+  .seq .enumCheck (.seq (.forArms .reverse
+    (.seq .newEnv (.seq (.matchArgs .orig) (.ite (.var .matched)
+      (.seq (.ifSelfCall (.seq .evalTailArgs (.ifTailArity .returnTail))) (.seq .evalBody (.seq .coerce .returnValue))) .skip))))
+    .failNoArm)
+
+def overlap : FDef := { arity := 1, arms := [(.sp (.lit (.num .u64 0)), .lit (.num .u64 10)), (.sp .wild, .lit (.num .u64 20))] }
+
+theorem C16_mutant_reversed :
+    runArms (modelFOps overlap noSelf leftBinding) mutantReversed [.num .u64 0] [] = some (.ok (.ret (.num .u64 20))) ∧
+    runArms (modelFOps overlap noSelf leftBinding) expectedArms [.num .u64 0] [] = some (.ok (.ret (.num .u64 10))) :=
+  ⟨rfl, rfl⟩
+
+/-- the match expression evaluating the guard before (and whatever) the pattern says -/
+def mutantGuardFirst : MStmt :=
+  .seq .evalSource (.seq .detach (.seq .baseFromCaller (.seq .bindSourceVar (.seq (.ifNoWildcard (.ifInferMissing
+    (.ifMissingEmpty (.validateAll .base) .failVariants) .failNonExhaustive)) (.seq .emptySpecial (.seq (.forArms .forward
+    (.seq (.cloneEnv .base) (.seq (.guard false .arm) (.seq (.matchPat true .arm)
+      (.ite (.and (.var .matched) (.var .passed))
+        (.seq .emptyCoalesce (.seq (.evalBody .arm) (.seq (.validateKinds .base) .returnOutput))) .skip)))))
+    .failNoArm))))))
+
+/-- `x ? | (a, b), a > 0 => 1 | * => 2` on a scalar: the guard's variable is not bound when the pattern did not match -/
+def guardedArms : List Arm :=
+  [{ pat := .tup [.bind 0, .bind 1], guard := some (.bin .gt (.var 0) (.lit (.num .u64 0))), body := .lit (.num .u64 1) },
+   { pat := .sp .wild, guard := none, body := .lit (.num .u64 2) }]
+
+def leftNothing : P → V → Env → Env := fun _ _ env => env
+
+theorem C16_mutant_guard_before_pattern :
+    runMatchExpr (modelMOps [] guardedArms (.sc (.num .u64 3)) leftNothing) mutantGuardFirst = some (.error .undef) ∧
+    runMatchExpr (modelMOps [] guardedArms (.sc (.num .u64 3)) leftNothing) expectedMatch = some (.ok (.sc (.num .u64 2))) :=
+  ⟨rfl, rfl⟩
+
+/-- the match expression with one binding environment for all arms -/
+def mutantCloneOnce : MStmt :=
+  .seq .evalSource (.seq .detach (.seq .baseFromCaller (.seq .bindSourceVar (.seq (.ifNoWildcard (.ifInferMissing
+    (.ifMissingEmpty (.validateAll .base) .failVariants) .failNonExhaustive)) (.seq .emptySpecial (.seq (.cloneEnv .base) (.seq (.forArms .forward
+    (.seq (.matchPat true .arm) (.seq (.guard true .arm)
+      (.ite (.and (.var .matched) (.var .passed))
+        (.seq .emptyCoalesce (.seq (.evalBody .arm) (.seq (.validateKinds .base) .returnOutput))) .skip))))
+    .failNoArm)))))))
+
+/-- a failed first arm leaves `x₀ = 9` behind; the second arm `x₀ => x₀` then compares instead of binding -/
+def leftNine : P → V → Env → Env := fun _ _ env => (0, .sc (.num .u64 9)) :: env
+
+def bindArms : List Arm :=
+  [{ pat := .sp (.lit (.num .u64 1)), guard := none, body := .lit (.num .u64 1) },
+   { pat := .sp (.bind 0), guard := none, body := .var 0 },
+   { pat := .sp .wild, guard := none, body := .lit (.num .u64 0) }]
+
+theorem C16_mutant_binding_env_once :
+    runMatchExpr (modelMOps [] bindArms (.sc (.num .u64 3)) leftNine) mutantCloneOnce = some (.ok (.sc (.num .u64 0))) ∧
+    runMatchExpr (modelMOps [] bindArms (.sc (.num .u64 3)) leftNine) expectedMatch = some (.ok (.sc (.num .u64 3))) :=
+  ⟨rfl, rfl⟩
+
+end mutants
 
 end MechVerif.Arms
